@@ -5,6 +5,7 @@ from . import c03
 
 LEVEL = 'proof'
 RULE = c03.RULE + '; C01 scenes use single-direction Lambertian walls with uniform / non-uniform / fully absorbing walls'
+RULE = RULE + "; materials installed one call per wall or as 'wall 0 on all walls, then overrides'; the reflectance in force is compared with the one GIVEN in the scene"
 ASSUMPTIONS = c03.ASSUMPTIONS + ['the closure error eps of the form factors is measured on the same object (C05), not proved']
 EXPLANATION = 'energy step formula (exact, any length), its long-histogram form, no creation beyond the closure error, uniform-wall ratio, dark absorbing walls, truncation only removes.'
 
